@@ -285,6 +285,21 @@ func checkProgram(id string, c gen.ProgCase) (Verdict, ref.Result, progStats) {
 			return bad(true, "output differs\n got  %q\n want %q\n%s data=%v", rr.out, want.Out, showSources(names, srcs), c.Data), want, st
 		}
 		// the same render through a bundle of (marked) identity translations: the marks aside, the same text
+		if st.msgs > 0 {
+			// every message of a compiled bundle has its id (also one that stands in the content of a
+			// param of a call inside another message)
+			noID := ""
+			for _, t := range cb.reg.Templates {
+				collectMsgs(t.Node, func(m *ast.MsgNode) {
+					if m.ID == 0 {
+						noID = t.Node.Name + ": " + m.String()
+					}
+				})
+			}
+			if noID != "" {
+				return bad(true, "a message of the compiled bundle has no id: %s\n%s", trunc(noID, 200), showSources(names, srcs)), want, st
+			}
+		}
 		if st.msgs > 0 && !strings.ContainsAny(strings.Join(srcs, "")+fmt.Sprint(c.Data, c.IJ), "«»") && !hasPluralMsg(cb) {
 			var buf bytes.Buffer
 			var berr error
